@@ -110,6 +110,14 @@ pub fn generate(g: &mut Gen, thorough: bool) {
         let d = proj::ProjDef { name: "omerc", shape: String::new(), ellps: "evrstSS".into(), lon_0: 115.0, lat_0: None, k_0: 1.0, x_0: 0.0, y_0: 0.0, has_lon0: true, has_k0: true, has_xy: true, centre: (115.0, latc), extent: (6.0, 6.0) };
         let pts = proj::points(&mut g.rng, &d, 10);
         case(g, "default", &def, "F", "geo", 2e-3, &pts, "omerc-variants", true);
+        // (more than a quarter turn of longitude from the centre: the other half of the aposphere, where the
+        // quadrant of the along-line coordinate matters)
+        if !shape.contains("alpha=90") {
+            let far: Vec<[f64; 4]> = (0..6)
+                .map(|i| [(if i % 2 == 0 { g.rng.uniform(215.0, 250.0) } else { g.rng.uniform(0.0, 20.0) }).to_radians(), g.rng.uniform(-35.0, 35.0).to_radians(), 0.0, 2000.0])
+                .collect();
+            case(g, "default", &def, "F", "geo", 2e-3, &far, "omerc-beyond-a-quarter-turn", true);
+        }
     }
     // every auxiliary latitude on the extreme shapes: spheres (every series coefficient vanishes) and the most
     // flattened built-in ellipsoid; the equator and the last degrees before the poles among the latitudes
